@@ -89,13 +89,15 @@ type interpreter struct {
 	unsafeData map[*value][]value
 	onceDone   map[*value]bool
 	syncMaps   map[*value]*smap
+	poolReuse  bool
+	pools      map[*value][]value
 
 	// thread mode: interpreted goroutines run on native goroutines; the
 	// harness scheduler (zzverif.RunThreads) guarantees only one is ever
 	// runnable, so interpreter state needs no locking. abort is closed when
 	// any thread ends the run (or when the run is over) so that every
 	// goroutine parked in a channel operation unwinds.
-	race      *raceState
+	race *raceState
 	// gil: only the goroutine holding it interprets; it is released while a
 	// goroutine is parked in a channel operation. (The harness scheduler hands
 	// its baton through channels, but between a send and the sender's next
